@@ -24,6 +24,11 @@ type LoadOptions struct {
 	Overlay map[string][]byte // absolute file name -> replacement content
 	Whole   bool              // load dependencies from source too (whole-program SSA)
 	GOARCH  string            // optional
+	// NoNormalize analyses the program as written; by default calls of functions that the reference tree
+	// does not have are expanded at their call sites first (norm.go).
+	NoNormalize bool
+	// KnownFuncs replaces the reference table (tests).
+	KnownFuncs map[string]bool
 }
 
 // Prog is the loaded, type-checked program in SSA form.
@@ -38,6 +43,11 @@ type Prog struct {
 	Whole    bool
 	NFiles   int
 	Problems []string // unresolved anchors and other reasons for "undecided"
+	// Normalisation record: helpers expanded (name -> number of call sites), helpers left as calls with the reason, and
+	// a note when the expanded program could not be used.
+	NormInlined map[string]int
+	NormSkipped map[string]string
+	NormNote    string
 
 	fiCache  map[*ssa.Function]*FuncInfo
 	fiDeep   map[*ssa.Function]*FuncInfo
@@ -120,6 +130,42 @@ func Load(opt LoadOptions) (*Prog, error) {
 	}
 	sort.Slice(p.Pkgs, func(i, j int) bool { return p.Pkgs[i].PkgPath < p.Pkgs[j].PkgPath })
 	p.Fset = p.Pkgs[0].Fset
+	if !opt.NoNormalize {
+		known := opt.KnownFuncs
+		if known == nil {
+			known = ReferenceFuncs()
+		}
+		nov, inl, skipped, nerr := normalize(p.Pkgs, p.Fset, known)
+		if nerr != nil || len(nov) > 0 {
+			// the syntax trees of this load were edited in place: load again, with or without the expansion
+			o2 := opt
+			o2.NoNormalize = true
+			if nerr == nil {
+				o2.Overlay = map[string][]byte{}
+				for k, v := range opt.Overlay {
+					o2.Overlay[k] = v
+				}
+				for k, v := range nov {
+					o2.Overlay[k] = v
+				}
+				if p2, err2 := Load(o2); err2 == nil {
+					p2.NormInlined, p2.NormSkipped = inl, skipped
+					return p2, nil
+				} else {
+					nerr = fmt.Errorf("expanded program does not load: %v", err2)
+				}
+			}
+			o2.Overlay = opt.Overlay
+			p3, err3 := Load(o2)
+			if err3 != nil {
+				return nil, err3
+			}
+			p3.NormNote = "analysed as written (" + nerr.Error() + ")"
+			p3.NormSkipped = skipped
+			return p3, nil
+		}
+		p.NormSkipped = skipped
+	}
 	bmode := ssa.InstantiateGenerics
 	var spkgs []*ssa.Package
 	if opt.Whole {
